@@ -126,18 +126,22 @@ def run(tier: str) -> int:
     from .. import nested
 
     n = nested.run(wd, rep, tier, t)
+    # ---- NH: the same search on the real header shapes, calls nested several levels deep ---------------
+    from .. import nested_headers
+
+    nh = nested_headers.run(wd, rep, tier, t)
 
     rc = rep.finish()
     si = [0, len(cases) // 3, len(cases) - 1]
     evidence.write(
         PROP, tier, level="model_checking", wall_s=t.s(), violations=rep.n_violations,
         coverage={
-            "states": m.distinct + g.distinct + h["states"] + n["states"],
-            "transitions": m.transitions + g.transitions + h["transitions"] + n["transitions"],
-            "traces_validated_against_impl": len(cases) + len(rcases) + h["replayed"] + n["replayed"],
+            "states": m.distinct + g.distinct + h["states"] + n["states"] + nh["states"],
+            "transitions": m.transitions + g.transitions + h["transitions"] + n["transitions"] + nh["transitions"],
+            "traces_validated_against_impl": len(cases) + len(rcases) + h["replayed"] + n["replayed"] + nh["replayed"],
             "exhaustive": True,
             "samples": [{"pattern": show(cases[i][0]), "word": list(cases[i][1]), "SearchRef": refs[i], "find_all": results[i][1]["ms"] if results[i][0] == "ok" else list(results[i])} for i in si]
-            + h["samples"] + n["samples"],
+            + h["samples"] + n["samples"] + nh["samples"],
             "bounds": {"model": {"alphabet": b["sigma"], "max_items": b["N"], "max_word": b["K"]}, "replay": {"alphabet": b["gsigma"], "max_items": b["gN"], "max_word": b["gK"]},
                        "random": {"patterns": len(rcases) // 4, "items": "4..9", "word": "0..10"}, "header_sequences_max_len": b["hK"]},
             "model": {"module": "FindAll.tla", "invariants": invs, "distinct_states": m.distinct, "violated": [list(x) for x in m.violated], "actions": m.coverage},
@@ -145,6 +149,7 @@ def run(tier: str) -> int:
             "acceptor": {"module": "MatcherTrace.tla", "events": len(events), "rejected": len(rejected)},
             "header_shapes": h["detail"],
             "nested_header_search": n["detail"],
+            "nested_header_search_on_real_shapes": nh["detail"],
             "model_drift": rep.drift,
             "known_findings_hit": sorted(rep.known),
         },
@@ -161,6 +166,16 @@ def replay(path: str) -> int:
         from . import c15
 
         return c15.replay_header(path, PROP)
+    if case.get("kind") == "nested-header":
+        from .. import nested_headers
+
+        rej = nested_headers.replay_case(workdir(PROP, "replay"), case)
+        if rej:
+            print(f"VIOLATION property={PROP} replay={path}")
+            print("rejected clause:", rej[0])
+            return 1
+        print("accepted by NestedHeaderTrace.tla")
+        return 0
     if case.get("kind") == "headers":
         from .. import nested
 
